@@ -14,7 +14,7 @@ SPEC = {
     ],
     "jobs": [
         {"name": "asan", "harness": "c07_dvb_demux", "srcs": ["harness/c07_dvb_demux.c"], "flavour": "asan",
-         "cases": {"quick": 8000, "thorough": 160000}, "budget": 60},
+         "cases": {"quick": 20000, "thorough": 160000}, "budget": 60},
     ],
     "min_distinct": 200,
     "min_counters": {"partitions_coroutine": 5000, "partitions_callback": 5000, "recovery_checked": 500,
